@@ -134,6 +134,7 @@ func extractC09(repo string, o *Out) {
 	o.int("timeUnitNanos", p.ConstI(o, "TimeUnit"), "snowflake.go const TimeUnit (ns per time unit)")
 	o.int("customEpochNanos", p.ConstI(o, "CustomEpoch"), "snowflake.go const CustomEpoch (ns)")
 
+	translateC09(p, o) // translate.go: the id expression of Next and the machine-id expression of NewSnowflake, before any renaming
 	var maxSeq, maxTime, maxBack, mask uint64
 	shift := map[string]uint64{}
 	seqUnshifted := false
@@ -260,4 +261,49 @@ func extractC09(repo string, o *Out) {
 	o.nat("shiftMid", shift["sf.machineID"], "snowflake.go Next: shift of sf.machineID in the id")
 	o.bool("seqUnshifted", seqUnshifted, "snowflake.go Next: sf.seq enters the id without a shift")
 	o.bool("nextLocked", lockedWhole(p, next, "_r.guard"), "snowflake.go Next: sf.guard.Lock(); defer sf.guard.Unlock() first")
+}
+
+// translateC09 emits `Tr.uuid` (what Next assigns to sf.lastID, as a function of the fields and locals it reads, locals
+// with a single definition inlined) and `Tr.machineID` (what NewSnowflake stores in the machineID field).
+func translateC09(p *Pkg, o *Out) {
+	tr := newTr(p, o, 64)
+	defer tr.Emit("Tr")
+	next := p.Func("Snowflake", "Next")
+	var idExpr ast.Expr
+	n := 0
+	if next != nil && next.Body != nil {
+		ast.Inspect(next.Body, func(x ast.Node) bool {
+			if as, ok := x.(*ast.AssignStmt); ok && as.Tok == token.ASSIGN && len(as.Lhs) == len(as.Rhs) {
+				for i, l := range as.Lhs {
+					if sel, ok := l.(*ast.SelectorExpr); ok && sel.Sel.Name == "lastID" {
+						idExpr = as.Rhs[i]
+						n++
+					}
+				}
+			}
+			return true
+		})
+	}
+	if n != 1 {
+		idExpr = nil
+	}
+	tr.Expr("uuid", next, idExpr, "Snowflake.Next: the value assigned to sf.lastID")
+	nw := p.Func("", "NewSnowflake")
+	var midExpr ast.Expr
+	n = 0
+	if nw != nil && nw.Body != nil {
+		ast.Inspect(nw.Body, func(x ast.Node) bool {
+			if kv, ok := x.(*ast.KeyValueExpr); ok {
+				if id, ok := kv.Key.(*ast.Ident); ok && id.Name == "machineID" {
+					midExpr = kv.Value
+					n++
+				}
+			}
+			return true
+		})
+	}
+	if n != 1 {
+		midExpr = nil
+	}
+	tr.Expr("machineID", nw, midExpr, "NewSnowflake: the value of the machineID field")
 }
